@@ -3,17 +3,18 @@ CONSTANTS
   MaxG = 12
   Dpbs = {4, 8}
   ResizeSet = {1, 2, 3, 10, 18}
+  Geos <- OneGeo
   MaxSteps = 2
   DevTuneMasterOnly = FALSE
   DevFsckIgnoresFeatDiff = FALSE
   DevFlushSkipsLast = FALSE
   DevResizeKeepsOldGdt = FALSE
   DevResizeMovesSoleBackup = FALSE
+  DevSearchGuesses8xBs = FALSE
   DevBackupSearchIgnoresSs2 = TRUE
 INVARIANT TypeOK
 INVARIANT InvCurrent
 INVARIANT InvBackupSet
 INVARIANT Ss2Shape
-INVARIANT InvRecover
 PROPERTY FsckKeeps
 CHECK_DEADLOCK FALSE
